@@ -34,8 +34,9 @@ theorem final_save_last {n mx : Nat} {s : St} (hr : Reachable n mx s)
   have hI := reachable_inv hr
   have hC2 := hI.1.2
   unfold CInv2 at hC2
-  have hst := hC2.2.2.2.2.2.2.2.2.1 h
-  have h4 := hC2.2.2.2.2.2.2.2.2.2 hst
+  obtain ⟨_, _, _, _, _, _, _, _, c9, _, _, _, _, c14⟩ := hC2
+  have hst := c9 h
+  have h4 := c14 hst
   refine ⟨?_, h4.1, h4.2.1, h4.2.2.1⟩
   intro th hth
   have hT := hI.2 th hth
@@ -205,7 +206,7 @@ theorem first_attempt_no_timeout (s s' : St) (hall : ∀ th ∈ s.thr, th.wRes =
 
 /-! Non-vacuity: shutdown while paused, from the C01 witness state. -/
 def shutdownTrace : List Act :=
-  witnessTrace ++ [.cTryPauseRet true, .cShutdown, .cClockResume, .cSetResume, .cSetShutdown]
+  witnessTrace ++ [.cTryPauseRet true, .cCmdShutdown, .cShutdown, .cClockResume, .cSetResume, .cSetShutdown]
 
 example : ∃ s, Reachable 2 2 s ∧ s.shutdown = true ∧ s.clockPaused = false ∧
     (∃ th ∈ s.thr, th.pc = .blocked ∧ th.notified = true) := by
